@@ -28,10 +28,17 @@ def plan(tier, seed):
     specs += [{"mode": "soup", "seed": seed, "shard": i, "n": nsoup} for i in range(n)]
     specs += [{"mode": "product_sample", "alpha": "pos", "len": L, "seed": seed, "shard": i, "n": 4000 if tier == "quick" else 60000}
               for i, L in enumerate([7, 8, 9, 10, 12, 14, 16, 20])]
+    # very long runs of one unit (splices, quotes, stray characters ...) at one place
+    specs += [{"mode": "runs", "shard": i, "nshards": 4} for i in range(4)]
+    # every keyword-like identifier, alone and between tokens
+    specs += [{"mode": "list", "items": [w for w in __import__("nv.gen.lex", fromlist=["x"]).NEAR_KEYWORDS] +
+               ["a %s b;" % w for w in __import__("nv.gen.lex", fromlist=["x"]).NEAR_KEYWORDS]}]
     # containers (comments, literals with every prefix, directive bodies; closed and left open) x payload sequences
     specs += [{"mode": "grammar", "seed": seed, "shard": i, "nshards": 8, "maxlen": 2 if tier == "quick" else 3,
                "sample": 1500 if tier == "quick" else 40000} for i in range(8)]
     specs += pipework.plan_programs(tier, seed, "C09", nshards=8, per_shard=60 if tier == "quick" else 1200)
+    # the positions the command line prints, for files analysed next to copies of themselves in one run
+    specs += [{"mode": "cli_copies", "seed": seed, "shard": i, "n": 6 if tier == "quick" else 60} for i in range(4)]
     return specs
 
 
@@ -39,7 +46,64 @@ def _nontrivial(s, src):
     return s.asserts.get("lex.position", 0) >= 2
 
 
+def run_cli_copies(spec):
+    """printed (line, column) of every diagnostic = the position the in-process monitors saw for the same content,
+    for a file alone, for two copies of it under different names in one run, and for the same path twice"""
+    import os
+    import random
+    import shutil
+    import tempfile
+    from nv import core, cliobs, oracle
+    from nv.checks import c17
+    from nv.run import Shard
+    sh = Shard(max_per_sig=3)
+    r = random.Random("c09cli/%s/%d" % (spec["seed"], spec["shard"]))
+    progs = [p for p, _ in c17.long_comment_programs({"seed": spec["seed"], "shard": spec["shard"], "n": spec["n"] * 6}, r)]
+    rng = random.Random("c09v/%s/%d" % (spec["seed"], spec["shard"]))
+    for p, tag in pipework.base_programs({"seed": spec["seed"], "shard": 4000 + spec["shard"], "n": spec["n"]}):
+        for q, o, _ in pipework.sampled_variants(p, rng, 1):
+            progs.append(q)
+    for k, p in enumerate(progs):
+        src = p.text()
+        ref = core.api_run(p.name, src, clock=False)
+        if ref.outcome != "ok":
+            continue
+        want = sorted((d[0], d[2], d[3]) for d in ref.diags)
+        d = tempfile.mkdtemp(prefix="nv_c09_")
+        try:
+            ext = p.name.rsplit(".", 1)[-1]
+            if ext == "h":
+                continue        # a header's guard follows its name: a copy under another name is another file
+            names = [p.name, "copy_one." + ext, "copy_two." + ext]
+            for n in names:
+                with open(os.path.join(d, n), "w", encoding="utf-8") as f:
+                    f.write(src)
+            run = cliobs.run_cli(["--no-colors"] + names + [names[0]], cwd=d, trace=False)
+            sh.case("copies\0" + src)
+            sh.count("cli.printed_positions_equal_monitored_positions")
+            sh.tally("outcomes", "cli_copies")
+            if run.timeout or run.traceback():
+                sh.violation("cli_failed", ("copies",), {"mode": "cli_copies", "name": p.name, "src": src}, {"stderr": run.stderr[-300:]})
+                continue
+            try:
+                files = oracle.parse_humanized(run.stdout)
+            except oracle.ReportParseError as e:
+                sh.violation("cli_unparsable", ("copies",), {"mode": "cli_copies", "name": p.name, "src": src}, {"error": str(e)[:200]})
+                continue
+            for idx, f in enumerate(files):
+                got = sorted((x[0], x[2], x[3]) for x in f["diags"])
+                if got != want:
+                    sh.violation("printed_position_differs", ("copy_%d" % idx,), {"mode": "cli_copies", "name": p.name, "src": src},
+                                 {"file": f["name"], "index_in_run": idx, "only_printed": [x for x in got if x not in want][:4],
+                                  "only_monitored": [x for x in want if x not in got][:4]})
+        finally:
+            shutil.rmtree(d, ignore_errors=True)
+    return sh
+
+
 def run_shard(spec):
+    if spec["mode"] == "cli_copies":
+        return run_cli_copies(spec).result()
     if spec["mode"] == "programs":
         return pipework.run_positions(spec).result()
     sh = lexpass.run_pass(spec, KINDS, nontrivial=_nontrivial)
@@ -47,6 +111,26 @@ def run_shard(spec):
 
 
 def replay(case, sh):
+    if case.get("mode") == "cli_copies":
+        import os, shutil, tempfile
+        from nv import core, cliobs, oracle
+        ref = core.api_run(case["name"], case["src"], clock=False)
+        want = sorted((d[0], d[2], d[3]) for d in ref.diags)
+        d = tempfile.mkdtemp(prefix="nv_c09r_")
+        try:
+            ext = case["name"].rsplit(".", 1)[-1]
+            names = [case["name"], "copy_one." + ext, "copy_two." + ext]
+            for n in names:
+                with open(os.path.join(d, n), "w", encoding="utf-8") as f:
+                    f.write(case["src"])
+            run = cliobs.run_cli(["--no-colors"] + names + [names[0]], cwd=d, trace=False)
+            sh.evaluations += 1
+            for idx, f in enumerate(oracle.parse_humanized(run.stdout)):
+                if sorted((x[0], x[2], x[3]) for x in f["diags"]) != want:
+                    sh.violation("printed_position_differs", ("replay",), case, {"index_in_run": idx})
+        finally:
+            shutil.rmtree(d, ignore_errors=True)
+        return
     if case.get("mode") == "lex":
         r = lexpass.run_pass({"mode": "list", "items": [case["src"]]}, KINDS)
         sh.violations += r.violations
